@@ -416,6 +416,8 @@ async def exec_ops(mw: MemWorld, ops: list, loop, terms: list, obs: list, trace:
                 mw.w.mb.queues[f"q{q_}"].processing.removals.clear()
 
             async def do_fin():
+                if o.get("after"):
+                    await asyncio.sleep(o["after"])          # virtual time passes first (the other consumer keeps polling)
                 for _ in range(o["k"]):
                     await asyncio.sleep(0)
                 _FIN.set(f)
